@@ -181,9 +181,9 @@ fn main() {
                 }
                 let parent_idx = node.parent;
                 let mut collapsed = false;
-                if let Some(len) = node.parent_edge {
+                if let (Some(len), Some(parent)) = (node.parent_edge, parent_idx) {
                     if len < threshold {
-                        node.set_parent(parent_idx.unwrap(), Some(0.0));
+                        node.set_parent(parent, Some(0.0));
                         collapsed = true;
                         n += 1;
                         if verbose {
